@@ -72,6 +72,17 @@ def gen_c03(ctx):
                 cfg = Cfg(rng, "C03", mode=mode, rfc=rfc, ttype="I", ip=4); c0 = str(cfg)
                 yield line(c0, start(rng, cfg, login=False) + [op_get(rng, cfg, size=size, reset=True), "disc:0"] + start(rng, cfg, login=False) + [op_get(rng, cfg, size=100)])
     ctx["scopes"].append("binary downloads whose data connection is reset by the server (undelivered bytes discarded) x 4 sizes x four methods")
+    # preliminary replies that announce a size, vsftpd / proftpd style - smaller than, equal to and larger than what the server then
+    # writes (a file growing during the transfer, a /proc-style file announced as 0 bytes): the text of a reply never bounds the data
+    for mode in "pa":
+        for rfc in (0, 1):
+            for size, announced in ((150, 100), (57, 0), (100, 100), (100, 150), (20000, 8192), (8192, 8191), (9000, 18446744073709551616)):
+                cfg = Cfg(rng, "C03", mode=mode, rfc=rfc, ttype="I", ip=4); c0 = str(cfg)
+                spec, _ = payload(rng, size)
+                for text in (b"150 Opening BINARY mode data connection for f.bin (%d bytes)" % announced, b"125 Data connection already open; transfer starting (%d bytes)." % announced, b"150 (%d bytes)" % announced):
+                    g = [setup_groups(rng, cfg), ",".join([R(text), rnd_reply(rng, 226), "Dsend:%s::c" % spec])]
+                    yield line(c0, start(rng, cfg, login=False) + ["get:%s:ok:-@" % H(b"f.bin") + "/".join(g), op_simple(rng, cfg, "noop", 200)])
+    ctx["scopes"].append("binary downloads whose preliminary reply announces a size different from / equal to the bytes then written (7 pairs x 3 reply texts x four methods)")
     for _ in range(n_of(ctx, 300, 4000)):
         cfg = Cfg(rng, "C03", ttype="I"); c0 = str(cfg)
         ops = start(rng, cfg, login=rng.chance(1, 2))
@@ -128,6 +139,15 @@ def gen_c04(ctx):
                     cfg = Cfg(rng, "C04", mode=mode, rfc=rfc, ttype="I", ip=4); c0 = str(cfg)
                     yield line(c0, start(rng, cfg, login=False) + [op_put(rng, cfg, size=size, chop=chop, poison=True)])
     ctx["scopes"].append("binary uploads from a source whose end is not sticky (it yields foreign bytes when asked again after its first empty read): 10 sizes x 8 chop patterns x four methods")
+    # a send() on the data connection that makes partial progress and is then interrupted by a signal (EINTR): whatever the
+    # call does then - fail loudly after a correct prefix, or go on - the peer must never see a byte twice
+    for mode in "pa":
+        for rfc in (0, 1):
+            for size in (5000, 8192, 20000, 70000):
+                for k in (0, 1, 2, 5):
+                    cfg = Cfg(rng, "C04", mode=mode, rfc=rfc, ttype="I", ip=4); c0 = str(cfg)
+                    yield line(c0, start(rng, cfg, login=False) + ["faults:-:-:%d" % k, op_put(rng, cfg, size=size, chop="-"), "disc:0"] + start(rng, cfg, login=False) + [op_put(rng, cfg, size=100)])
+    ctx["scopes"].append("binary uploads whose k-th send() (k = 0, 1, 2, 5) transmits half of its bytes and is then interrupted (EINTR) x 4 sizes x four methods")
     for _ in range(n_of(ctx, 300, 4000)):
         cfg = Cfg(rng, "C04", ttype="I"); c0 = str(cfg)
         ops = start(rng, cfg, login=rng.chance(1, 2))
